@@ -110,3 +110,42 @@ def params_handed_on(f):
         if dropped:
             out.append((i, f.local_name(i)))
     return out
+
+
+def taken_reaches(f, take_pred, sink_pred, limit=3000):
+    """for every path (ending in a loop back-edge or a return) on which a value was TAKEN from a source (decision `discr(take call)` with
+    outcome Some), is there a later call satisfying sink_pred?  returns (n paths with a taken value, [paths where it reaches no sink])"""
+    n, bad = 0, []
+    for p in explore(f, max_visits=1, havoc=True, limit=limit):
+        if p.end not in ('cut', 'return'):
+            continue
+        tk = [d for d in p.cdecisions() if d[2][0] == 'discr' and d[3] == 1 and d[2][1][0] == 'call' and take_pred(d[2][1])]
+        if not tk:
+            continue
+        k0 = tk[-1][0]
+        n += 1
+        if not any(c[0] > k0 and sink_pred(c) for c in path_calls(p, expand=False)):
+            bad.append(p)
+    return n, bad
+
+
+def flag_names(ctx, R, f, adt_suffix='::Args'):
+    """command line options are read under their own name: field `min` from is_present("min"), `batch_size` from "batch-size" ..."""
+    n = 0
+    for p in explore(f, max_visits=1, havoc=True, limit=50):
+        if p.end != 'return':
+            continue
+        for x in walk(p.ret()):
+            if x[0] == 'agg' and x[1].endswith(adt_suffix):
+                for fname, v in x[2]:
+                    for y in walk(v):
+                        if y[0] == 'call' and isinstance(y[1], str) and y[1].rsplit('::', 1)[-1] in ('is_present', 'value_of', 'value_of_lossy', 'value_of_os', 'values_of', 'values_of_os', 'values_of_lossy') and len(y[2]) == 2 and y[2][1][0] == 'cbytes':
+                            try:
+                                opt = bytes.fromhex(y[2][1][1]).decode()
+                            except (ValueError, UnicodeDecodeError):
+                                continue
+                            n += 1
+                            ctx.check(R, opt.replace('-', '_') == fname, 'flag:%s.%s' % (f.path, fname), 'the field `%s` of the command\'s arguments is read from the option "%s": the user\'s --%s is ignored and --%s acts in its place' % (fname, opt, fname.replace('_', '-'), opt), fn=f)
+                break
+        break
+    return n
